@@ -72,7 +72,6 @@ where
 
         Ok(ChangeData {
             prev_stamp,
-            prev_stored_len,
             truncated_start,
             truncated_values,
             prev_pushed,
